@@ -451,7 +451,7 @@ def run_property(prop, tier, seed):
         "excluded_known": tot["known_excluded"],
         "trivial": tot["trivial"],
         "configurations": {c: merge_counters(fs)["evaluations"] for c, fs in per_config.items()},
-        "exhaustive": bool(tot["exhaustive_done"] and (tierconf.get("enum_draws") or tierconf.get("sweep")) and tierconf.get("exhaustive_claim", False)),
+        "exhaustive": bool(merge_counters([f for f in counters_files if ".sweep." in f or ".enum." in f])["exhaustive_done"] and tierconf.get("exhaustive_claim", False)),
         "exhaustive_subspace": tierconf.get("exhaustive_note", ""),
         "build_s": round(build_s, 1),
         "known_findings_reported": known_lines,
